@@ -98,32 +98,23 @@ Theorem C05_next_after_seek : forall c ops t, lost_log (run c ops) = false ->
 Proof. exact eng_next_after_seek. Qed.
 Print Assumptions C05_next_after_seek.
 
-(* SeekToLast of the range iterator AS IT HAS TO BEHAVE (b_last): greatest key in [lo, hi) *)
+(* SeekToLast of the range iterator: greatest key in [lo, hi) *)
 Theorem C05_range_seek_last : forall c ops lo hi, lost_log (run c ops) = false ->
   greatest (filter (fun x => in_range lo hi (fst x)) (spec_view (acked (init c) ops)))
            (pos (eng_range_it lo hi) (i_last (eng_range_it lo hi) (eng_iter (run c ops)))).
 Proof. exact eng_range_seek_last. Qed.
 Print Assumptions C05_range_seek_last.
 
-(* Seek of the range iterator: least key >= target in the range — or, with the Seek of the
-   pinned BoundedIterator, nothing is >= target and the position did not move (defect D25, see
-   C05_bounded_seek_stale_refuted) *)
-Theorem C05_range_seek_partial : forall c ops lo hi t, lost_log (run c ops) = false ->
-  let view := filter (fun x => in_range lo hi (fst x)) (spec_view (acked (init c) ops)) in
-  let s0 := eng_iter (run c ops) in
-  least_ge view t (pos (eng_range_it lo hi) (fst (i_seek (eng_range_it lo hi) t s0))) \/
-  ((forall y, In y view -> blt (fst y) t = true) /\
-   pos (eng_range_it lo hi) (fst (i_seek (eng_range_it lo hi) t s0)) = pos (eng_range_it lo hi) s0 /\
-   snd (i_seek (eng_range_it lo hi) t s0) = false).
-Proof. exact eng_range_seek. Qed.
-Print Assumptions C05_range_seek_partial.
-
-(* the full statement for the range iterator's Seek: holds for the repaired Seek, refuted for the
-   pinned one *)
-Definition C05_range_seek_statement : Prop := forall c ops lo hi t, lost_log (run c ops) = false ->
+(* Seek of the range iterator, wherever it stands (here after SeekToFirst): the least key >=
+   target within the range, invalid when there is none. Holds for the repaired
+   BoundedIterator.Seek (Iter.bounded_seek_miss_moves = true); for the Seek of the pinned tree
+   (defect D25) see the witness below. *)
+Theorem C05_range_seek : forall c ops lo hi t, lost_log (run c ops) = false ->
   least_ge (filter (fun x => in_range lo hi (fst x)) (spec_view (acked (init c) ops))) t
            (pos (eng_range_it lo hi) (fst (i_seek (eng_range_it lo hi) t
                                              (i_first (eng_range_it lo hi) (eng_iter (run c ops)))))).
+Proof. exact eng_range_seek_exact. Qed.
+Print Assumptions C05_range_seek.
 
 Theorem C05_bounded_seek_stale_refuted :
   let t := mkSrc KSst [([1], Some [1]); ([3], Some [3]); ([5], Some [5]); ([7], Some [7])] [] in
@@ -134,7 +125,7 @@ Theorem C05_bounded_seek_stale_refuted :
 Proof. exact bounded_seek_stale_refuted. Qed.
 Print Assumptions C05_bounded_seek_stale_refuted.
 
-(* D24: the pinned SeekToLast (b_last_pinned) ends invalid although keys are in range *)
+(* D24 (repaired since): the pinned SeekToLast (b_last_pinned) ends invalid although keys are in range *)
 Theorem C05_seek_to_last_pinned_refuted :
   let t := mkSrc KSst [([1], Some [1]); ([3], Some [3]); ([5], Some [5]); ([7], Some [7])] [] in
   let h := hier_new [t] in
